@@ -378,10 +378,15 @@ Definition copy_merge_meta (r old : gobj) : gobj :=
 
 Definition dict_of_opt (d : option dict) : dict := match d with Some m => m | None => [] end.
 
-(* MergeDataMapFrom + MergeBinaryDataMapFrom: entries of [r] win; an empty result removes the field *)
+(* the entries of [d] whose key is not a key of [other] (resource.go withoutKeysOf) *)
+Definition dict_without (d other : dict) : dict :=
+  filter (fun kv => match dict_get (fst kv) other with Some _ => false | None => true end) d.
+
+(* MergeDataMapFrom + MergeBinaryDataMapFrom: entries of [r] win; a key [r] defines in the other map is dropped
+   from the old object's map (a key lives in only one of data / binaryData); an empty result removes the field *)
 Definition merge_data (r old : gobj) : gobj :=
-  let d := dict_override (dict_of_opt (g_data old)) (dict_of_opt (g_data r)) in
-  let b := dict_override (g_bin old) (g_bin r) in
+  let d := dict_override (dict_without (dict_of_opt (g_data old)) (g_bin r)) (dict_of_opt (g_data r)) in
+  let b := dict_override (dict_without (g_bin old) d) (g_bin r) in
   mkGobj (g_secret r) (g_name r) (g_ns r) (g_prev r) (g_labels r) (g_annos r) (g_behavior r) (g_hash r)
          (match d with [] => None | _ => Some d end) b (g_type r) (g_immutable r).
 
@@ -545,7 +550,13 @@ Definition add_hash (o : gobj) : res gobj :=
     Ok (set_name (store_prev o) (g_name o ++ "-" ++ h))
   else Ok o.
 
+(* HashTransformer (since 9a490e0): every renamed object must be the only one with its new id *)
+Definition hash_ids_unique (out : resmap) : bool :=
+  forallb (fun o => negb (g_hash o) ||
+                    match indices (matches_cur (g_secret o) (cur_id o)) out with [_] => true | _ => false end) out.
+
 (* KustTarget.makeCustomizedResMap restricted to generated objects *)
 Definition build (l : layer) : res resmap :=
   do rm <- accumulate l;
-  mapM add_hash rm.
+  do out <- mapM add_hash rm;
+  if hash_ids_unique out then Ok out else Err.
